@@ -120,6 +120,20 @@ func runC02(ctx *Ctx) {
 			out := len(tokensOf(x.Res.Text))
 			return out >= 2 && out < len(subtreeTokens(x.D.Root))
 		}}.run(ctx)
+	// the converter, the builder and the renderer on element names outside the article
+	// vocabulary (obsolete, rare, custom, unknown): model against implementation only
+	if ctx.Replay == "" {
+		for i := 0; i < ctx.pick(250, 10000); i++ {
+			g := newPageGen(newRng(ctx.Seed, fmt.Sprintf("C02/exotic/%d", i)))
+			g.Weights = append(defaultWeights(), W{"exotic", 60})
+			src := g.Page(g.R.Range(3, 9), "t")
+			d := parseDoc(src)
+			replay := pageReplay{HTML: src, URL: pageURL.String()}
+			ctx.Rep.hist("exotic-pages")
+			pc.add(ctx, d, d.elementRoot(), true, replay)
+			addRenderCases(tr, do, ctx.Rep, src, pageURL, replay, 6)
+		}
+	}
 }
 
 func runC03(ctx *Ctx) {
